@@ -12,6 +12,7 @@ import (
 	"math"
 	"net/http"
 	"sync"
+	"sync/atomic"
 	"time"
 
 	"go.amzn.com/lambda/core/directinvoke"
@@ -90,6 +91,9 @@ type Server struct {
 	mutex         sync.Mutex
 	invokeCtx     *InvokeContext
 	invokeTimeout time.Duration
+	// currentInvokeID mirrors invokeCtx.Token.InvokeID (written under mutex) for readers that must not wait for the
+	// mutex: sendResponseUnsafe holds it for as long as the runtime takes to upload its response
+	currentInvokeID atomic.Value
 
 	reservationContext context.Context
 	reservationCancel  func()
@@ -177,6 +181,8 @@ func (s *Server) setNewInvokeContext(invokeID string, traceID, lambdaSegmentID s
 		},
 	}
 
+	s.currentInvokeID.Store(invokeID)
+
 	resp := &ReserveResponse{
 		Token: s.invokeCtx.Token,
 	}
@@ -263,19 +269,16 @@ func (s *Server) Release() error {
 	s.sandboxContext.SetRuntimeStartedTime(-1)
 	s.sandboxContext.SetInvokeResponseMetrics(nil)
 	s.invokeCtx = nil
+	s.currentInvokeID.Store("")
 	return nil
 }
 
 // GetCurrentInvokeID
 func (s *Server) GetCurrentInvokeID() string {
-	s.mutex.Lock()
-	defer s.mutex.Unlock()
-
-	if s.invokeCtx == nil {
-		return ""
-	}
-
-	return s.invokeCtx.Token.InvokeID
+	// not under the mutex: a reset asks for the id while a response upload may be holding the mutex,
+	// and that upload ends only when the reset kills the runtime
+	id, _ := s.currentInvokeID.Load().(string)
+	return id
 }
 
 // SetSandboxContext is used to set the sandbox context after intiialization of interop server.
